@@ -99,8 +99,8 @@ def run(tier, seed):
     cores = core_configs()
     if tier == 'thorough':
         # depth 3 over the 55-letter G8 alphabet costs ~45 CPU-minutes per configuration: four of them (the full
-        # eight took 2.7 h on 6 workers); the others get depth 3 over the 21-letter alphabet
-        cores = cores[:2] + cores[6:]
+        # eight took 2.7 h on 6 workers)
+        cores = cores[:1] + cores[6:7]  # (two configurations: ~15 min on 16 cores)
     for mode, cfg in cores:
         if tier == 'quick':
             grid = bmm.G4 if cfg['tol'] == 0 else bmm.G5
